@@ -72,6 +72,38 @@ impl std::task::Wake for InlineWaker {
     }
 }
 
+/// Waker C (op `K`): counts wake-ups; its first `clone()` after being armed runs the armed producer step on another thread.
+struct HookWaker {
+    n: std::sync::atomic::AtomicUsize,
+    pending: Mutex<Option<Box<dyn FnOnce() -> String + Send>>>,
+    handle: Mutex<Option<std::thread::JoinHandle<String>>>,
+}
+impl HookWaker {
+    fn run_hook(&self) {
+        let f = self.pending.lock().unwrap().take();
+        if let Some(f) = f {
+            let (tx, rx) = std::sync::mpsc::channel();
+            let h = std::thread::spawn(move || { let r = f(); let _ = tx.send(()); r });
+            let _ = rx.recv_timeout(std::time::Duration::from_millis(100));
+            *self.handle.lock().unwrap() = Some(h);
+        }
+    }
+}
+static HOOK_VT: std::task::RawWakerVTable = std::task::RawWakerVTable::new(hw_clone, hw_wake, hw_wake_by_ref, hw_drop);
+unsafe fn hw_clone(p: *const ()) -> std::task::RawWaker {
+    let a = Arc::from_raw(p as *const HookWaker);
+    let b = a.clone();
+    std::mem::forget(a);
+    b.run_hook();
+    std::task::RawWaker::new(Arc::into_raw(b) as *const (), &HOOK_VT)
+}
+unsafe fn hw_wake(p: *const ()) { let a = Arc::from_raw(p as *const HookWaker); a.n.fetch_add(1, std::sync::atomic::Ordering::SeqCst); }
+unsafe fn hw_wake_by_ref(p: *const ()) { (*(p as *const HookWaker)).n.fetch_add(1, std::sync::atomic::Ordering::SeqCst); }
+unsafe fn hw_drop(p: *const ()) { drop(Arc::from_raw(p as *const HookWaker)); }
+fn hook_waker(h: Arc<HookWaker>) -> std::task::Waker {
+    unsafe { std::task::Waker::from_raw(std::task::RawWaker::new(Arc::into_raw(h) as *const (), &HOOK_VT)) }
+}
+
 fn c_is_q(op: &str) -> bool {
     op.starts_with('Q')
 }
@@ -104,7 +136,7 @@ fn run_one(line: &str) -> String {
         let hs: Vec<String> = resp.headers().iter().map(|(k, v)| format!("{}={}", k.as_str(), hex(v.as_bytes()))).collect();
         s.push_str(&hs.join(","));
         s.push_str(if w.is_some() { "|" } else { "|nowriter," });
-        let mut w = w;
+        let w: Arc<Mutex<Option<http_serve::BodyWriter<bytes::Bytes, BoxError>>>> = Arc::new(Mutex::new(w));
         let body: Arc<Mutex<Option<TheBody>>> = Arc::new(Mutex::new(Some(resp.into_body())));
         let cw = Arc::new(InlineWaker { n: std::sync::atomic::AtomicUsize::new(0), enabled: std::sync::atomic::AtomicBool::new(false), busy: std::sync::atomic::AtomicBool::new(false),
                                         body: body.clone(), log: Mutex::new(Vec::new()), me: Mutex::new(None) });
@@ -112,22 +144,24 @@ fn run_one(line: &str) -> String {
         let waker = std::task::Waker::from(cw.clone());
         *cw.me.lock().unwrap() = Some(waker.clone());
         let waker_b = std::task::Waker::from(cw_b.clone());
+        let hook = Arc::new(HookWaker { n: std::sync::atomic::AtomicUsize::new(0), pending: Mutex::new(None), handle: Mutex::new(None) });
         let mut res: Vec<String> = Vec::new();
         for op in &ops {
             let (c, arg) = op.split_at(1);
             let wakes_before = cw.n.load(std::sync::atomic::Ordering::SeqCst);
             let wakes_before_b = cw_b.0.load(std::sync::atomic::Ordering::SeqCst);
+            let wakes_before_c = hook.n.load(std::sync::atomic::Ordering::SeqCst);
             let mut cx = Context::from_waker(if c_is_q(op) { &waker_b } else { &waker });
             let mut r = match c {
-                "W" => match w.as_mut() {
+                "W" => match w.lock().unwrap().as_mut() {
                     Some(w) => match w.write(&unhex(arg)) { Ok(k) => format!("w{}", k), Err(_) => "we".into() },
                     None => "w-".into(),
                 },
-                "L" => match w.as_mut() {
+                "L" => match w.lock().unwrap().as_mut() {
                     Some(w) => match w.write_all(&unhex(arg)) { Ok(()) => "lo".into(), Err(_) => "le".into() },
                     None => "l-".into(),
                 },
-                "F" => match w.as_mut() {
+                "F" => match w.lock().unwrap().as_mut() {
                     Some(w) => match w.flush() { Ok(()) => "fo".into(), Err(_) => "fe".into() },
                     None => "f-".into(),
                 },
@@ -154,8 +188,35 @@ fn run_one(line: &str) -> String {
                     None => "d-".into(),
                 },
                 "G" => format!("g{}", if http_serve::should_gzip(req.headers()) { 1 } else { 0 }),
-                "A" => { if let Some(w) = w.as_mut() { w.abort("scripted abort".into()); } "a".into() }
-                "X" => { w = None; "x".into() }
+                "A" => { if let Some(w) = w.lock().unwrap().as_mut() { w.abort("scripted abort".into()); } "a".into() }
+                "X" => { let old = w.lock().unwrap().take(); drop(old); "x".into() }
+                // `K<producer op>`: poll with waker C, whose `clone()` lets ANOTHER THREAD perform the producer op (F / X / A / L..)
+                // and waits up to 100 ms for it: a producer step that lands inside the consumer's poll, at the earliest point the
+                // consumer's own code runs foreign code.  With the waker stored under the lock the producer blocks until the poll
+                // is over (and then must wake C); a poll that registers its waker late lets the step slip in unnoticed.
+                "K" => {
+                    let w2 = w.clone();
+                    let pop = arg.to_string();
+                    *hook.pending.lock().unwrap() = Some(Box::new(move || {
+                        let (c2, a2) = pop.split_at(1);
+                        let mut g = w2.lock().unwrap();
+                        match c2 {
+                            "F" => match g.as_mut() { Some(w) => match w.flush() { Ok(()) => "fo".into(), Err(_) => "fe".into() }, None => "f-".into() },
+                            "L" => match g.as_mut() { Some(w) => match w.write_all(&unhex(a2)) { Ok(()) => "lo".into(), Err(_) => "le".into() }, None => "l-".into() },
+                            "A" => { if let Some(w) = g.as_mut() { w.abort("scripted abort".into()); } "a".into() }
+                            "X" => { let old = g.take(); drop(old); "x".into() }
+                            _ => "?".into(),
+                        }
+                    }));
+                    let before_c = hook.n.load(std::sync::atomic::Ordering::SeqCst);
+                    let waker_c = hook_waker(hook.clone());
+                    let mut cx_c = Context::from_waker(&waker_c);
+                    let pr = { let mut g = body.lock().unwrap(); match g.as_mut() { Some(b) => poll_once(b, &mut cx_c), None => "p-".into() } };
+                    let prod = match hook.handle.lock().unwrap().take() { Some(h) => h.join().unwrap_or("panic".into()), None => "notrun".into() };
+                    hook.pending.lock().unwrap().take();
+                    let wc = hook.n.load(std::sync::atomic::Ordering::SeqCst) - before_c;
+                    format!("{}^{}^{}", pr, prod, wc)
+                }
                 "R" => { let old = body.lock().unwrap().take(); drop(old); "r".into() }
                 "P" | "Q" => {
                     let mut g = body.lock().unwrap();
@@ -168,7 +229,10 @@ fn run_one(line: &str) -> String {
             };
             let wakes = cw.n.load(std::sync::atomic::Ordering::SeqCst) - wakes_before;
             let wakes_b = cw_b.0.load(std::sync::atomic::Ordering::SeqCst) - wakes_before_b;
-            if wakes > 0 || wakes_b > 0 {
+            let wakes_c = hook.n.load(std::sync::atomic::Ordering::SeqCst) - wakes_before_c;
+            if wakes_c > 0 {
+                r.push_str(&format!("!{}/{}/{}", wakes, wakes_b, wakes_c));
+            } else if wakes > 0 || wakes_b > 0 {
                 r.push_str(&format!("!{}/{}", wakes, wakes_b));
             }
             for inl in cw.log.lock().unwrap().drain(..) {
